@@ -945,16 +945,21 @@ def filter_copy(P, rep, rule="FILTER"):
         rep.unknown(rule, "filter_vtu_mesh delegates to %s: this rule is written over the body of filter_vtu_mesh alone" % ", ".join(g.qn for g in helpers))
         return
     have = {n.get("n") for n in F.walk() if n.get("k") == "VarDecl"}
-    missing = {"src_vid", "dst_vid", "highest_tag", "vertex_index_map", "tag_index", "invalid"} - have
+    missing = {"src_vid", "dst_vid", "highest_tag", "vertex_index_map", "tag_index", "invalid", "cellidx"} - have
     if missing:
         # the rule is written over these locals; if they were renamed it cannot judge (never a violation)
         rep.unknown(rule, "filter_vtu_mesh: anchor locals %s not found (renamed?)" % sorted(missing))
         return
     problems = []
     # (0) both per-cell vertex loops visit all vertices of the cell: idx in [cellidx*n, (cellidx+1)*n), n = (dim == 3) ? 8 : 4
-    nv = [x for x in F.walk() if x.get("k") == "VarDecl" and x.get("n") == "n_vert_per_cell" and x.get("c")]
-    if len(nv) != 1 or R(nv[0]["c"][0]) not in ("((dim==3)?8:4)", "((dim==2)?4:8)", "((3==dim)?8:4)"):
-        problems.append("n_vert_per_cell is %s (expected (dim==3)?8:4)" % (R(nv[0]["c"][0]) if nv else "not found"))
+    NV_FORMS = ("((dim==3)?8:4)", "((dim==2)?4:8)", "((3==dim)?8:4)", "((2==dim)?4:8)")
+    nv = [x for x in F.walk() if x.get("k") == "VarDecl" and x.get("c") and R(x["c"][0]) in NV_FORMS]      # by what it is, not by its name
+    named = [x for x in F.walk() if x.get("k") == "VarDecl" and x.get("n") == "n_vert_per_cell" and x.get("c")]
+    if len(nv) != 1 and not named:
+        rep.unknown(rule, "filter_vtu_mesh: the number of vertices per cell ((dim==3)?8:4) is not defined in a form this rule reads")
+        return
+    if len(nv) != 1:
+        problems.append("n_vert_per_cell is %s (expected (dim==3)?8:4)" % R(named[0]["c"][0]))
     else:
         NV = sp.Symbol("N_VERT", positive=True, integer=True)
         symv = norm.Sym(P, F, inline_locals=False, inline_consts=True, env={nv[0]["r"]: NV})
@@ -1157,6 +1162,11 @@ def grid_cartesian(P, rep, rule="GRID.cartesian"):
         rep.unknown(rule, "%d `grid_type == \"cartesian\"` blocks" % len(blocks))
         return
     blk = blocks[0]["c"][1]
+    miss = astq.missing_anchors(P, F, ["x_min", "x_max", "y_min", "y_max", "z_min", "z_max", "n_cell_x", "n_cell_y", "n_cell_z", "grid_x", "grid_y", "grid_z",
+                                        "grid_connectivity", "counter", "dim"])
+    if miss:
+        rep.unknown(rule, "gwb-grid main: the variables %s this rule is written over no longer exist (renamed?)" % miss)
+        return
     nx, ny, nz = sp.symbols("n_cell_x n_cell_y n_cell_z", integer=True, positive=True)
     xmin, ymin, zmin, xmax, ymax, zmax = sp.symbols("x_min y_min z_min x_max y_max z_max", real=True)
     namesym = {"n_cell_x": nx, "n_cell_y": ny, "n_cell_z": nz, "x_min": xmin, "y_min": ymin, "z_min": zmin, "x_max": xmax, "y_max": ymax, "z_max": zmax}
